@@ -299,6 +299,50 @@ func blankLineCases() []*c20Case {
 	return out
 }
 
+// remarkFirstCases: an ACL whose first line is a remark (ASA also: a standard line) and whose extended lines use
+// object-groups, as the only ACL of the file that is parsed first; every slot, both argument positions.
+func remarkFirstCases() []*c20Case {
+	var out []*c20Case
+	cfg := map[string][]string{
+		"ASA": {
+			"object-group network g1\n network-object host 10.1.1.1\naccess-list A remark first\naccess-list A extended permit ip object-group g1 any4\naccess-group A global\n",
+			"object-group network g1\n network-object host 10.1.1.1\nobject-group service s1 tcp\n port-object eq 80\naccess-list A remark first\naccess-list A remark second\naccess-list A extended deny ip any4 any4\naccess-list A extended permit tcp object-group g1 object-group g1 object-group s1\naccess-group A in interface inside\ninterface E0\n nameif inside\n",
+			"object-group network g1\n network-object host 10.1.1.1\naccess-list S standard permit 10.1.1.0 255.255.255.0\naccess-list S extended permit ip object-group g1 any4\naccess-group S global\n",
+			"object-group network g1\n network-object host 10.1.1.1\naccess-list A remark first\naccess-list A extended permit ip object-group g1 any4\naccess-list B extended permit ip object-group g1 any4\naccess-group A global\n",
+		},
+		"IOS": {
+			"ip access-list extended A\n remark first\n permit ip object-group g1 any\ninterface E0\n ip access-group A in\n",
+			"object-group network g1\n host 10.1.1.1\nip access-list extended A\n remark first\n permit ip object-group g1 any\ninterface E0\n ip access-group A in\n",
+		},
+	}
+	slots := []string{"device", "code/router", "code/ipv6/router", "code/router.raw"}
+	for _, typ := range []string{"ASA", "IOS"} {
+		for ti, text := range cfg[typ] {
+			for _, slot := range slots {
+				for _, also := range []string{"", "device", "code/router"} {
+					if also == slot {
+						continue
+					}
+					for _, pos := range []string{"A", "B"} {
+						f := map[string]string{"device": "", "code/router": "", "code/router.info": infoJSON(typ), "device.info": infoJSON(typ)}
+						f[slot] = text
+						if also != "" {
+							f[also] = text
+						}
+						args := []string{"-q", "device", "code/router"}
+						if pos == "B" {
+							args = []string{"-q", "code/router", "device"}
+						}
+						out = append(out, &c20Case{Prog: "drc", Args: args, Files: f, Type: typ,
+							Test: fmt.Sprintf("aclhead:ACL #%d starts with a remark/standard line, in %s", ti, slot), Mut: "also in [" + also + "] pos=" + pos, Class: "aclhead-corpus"})
+					}
+				}
+			}
+		}
+	}
+	return out
+}
+
 func buildMissingApprove(ctx *Ctx, res *Result) string {
 	dir, _ := os.MkdirTemp("", "c20bin")
 	bin := filepath.Join(dir, "missing-approve")
@@ -421,6 +465,9 @@ func runC20(ctx *Ctx) *Result {
 		for _, c := range blankLineCases() {
 			push(c)
 		}
+		for _, c := range remarkFirstCases() {
+			push(c)
+		}
 		i := 0
 		enumerate(bases, func(class string, build func() *c20Case) {
 			i++
@@ -428,7 +475,7 @@ func runC20(ctx *Ctx) *Result {
 			if (class == "companion" || class == "xml-groupcycle") && m > 4 {
 				m /= 4
 			}
-			if m == 1 || hash64(fmt.Sprintf("%d/%d", ctx.Seed, i))%m == 0 || class == "unmutated" && i%5 == 0 {
+			if m == 1 || hash64(fmt.Sprintf("%d/%d", ctx.Seed, i))%m == 0 || class == "unmutated" && i%5 == 0 || class == "aclhead" {
 				push(build())
 			}
 		})
